@@ -53,6 +53,12 @@ func c03(p *core.Prog, r *core.Report) {
 	r.Alias("C08-R4", "C03-R7")
 	c08Lazy(p, r)
 	r.Alias("C08-R4", "")
+	// a pooled decoder that keeps its sticky error from one malformed message
+	// fails every later, well-formed message that draws it from the pool
+	// (shared with C04-R7)
+	r.Alias("C04-R7", "C03-R7")
+	c04Pools(p, r)
+	r.Alias("C04-R7", "")
 	r.Rule("C03-R6", "E4 locksets", 20, "guarded maps are accessed under their lock (a concurrent map access aborts the process)")
 	guardedAccesses(p, r, p.ComputeLocks(), "C03-R6", func(typ, field string, fld *types.Var) bool {
 		_, isMap := fld.Type().Underlying().(*types.Map)
